@@ -33,6 +33,9 @@ def run_one(scen):
         run = impl_trace.Run(scen, step_timeout=scen.get("step_timeout", 6))
         n = drive(run, scen)
         run.twin = None
+        run.c13 = None
+        if scen.get("probes", {}).get("c13") and run.env is not None and scen["policy"]["kind"] != "multi":
+            run.c13 = c13_twins(run, scen)
         if scen.get("probes", {}).get("shift") and run.env is not None and scen["policy"]["kind"] != "multi":
             run.twin = shift_twin(run, scen)
         res.update(cmds=run.cmds, out=run.out, steps=n, unrep=run.unrep,
@@ -66,7 +69,7 @@ def drive(run, scen):
             alive = run.act(pol.choose(run.env))
         n += 1
     if run.env is not None and run.records[-1].error is None:
-        if run.env.done:
+        if run.env.done and not probes.get("c13"):
             run.probe_after_done()
         elif probes.get("envfail") and alive:
             run.probe_env_failure()
@@ -74,6 +77,38 @@ def drive(run, scen):
             run.probe_reset()
     run.end()
     return n
+
+
+def c13_twins(run, scen):
+    """C13: this process finishes the scenario with a reset + replay; fresh interpreters with other
+    hash seeds, disturbed global random state and a second live environment replay the same
+    actions; for instances without stochastic elements one twin uses a different seed"""
+    import impl_trace
+    actions = [rec.action for rec in run.records if rec.kind == "act"]
+    first = [l for l in run.out if l[:1] in "STOAVFRXL" ]
+    second = impl_trace.two_episodes(run, actions, start=False)
+    mine = first + second["lines"]
+    slim = {k: v for k, v in scen.items() if k not in ("doc",)}
+    slim["probes"] = {}
+    twins = []
+    deterministic = not run.stoch_objs
+    jobs = [dict(junk=scen["probes"]["c13"], other=None, hashseed=str(1 + scen["probes"]["c13"] % 4000), seed_override=None),
+            dict(junk=scen["probes"]["c13"] + 1, other=slim, hashseed="0", seed_override=None)]
+    if deterministic:
+        jobs.append(dict(junk=3, other=None, hashseed="77", seed_override=int(scen.get("seed", 0)) + 1 + scen["probes"]["c13"] % 5))
+    for jb in jobs:
+        env = dict(os.environ, PYTHONHASHSEED=jb["hashseed"])
+        spec = dict(scen=slim, actions=actions, junk=jb["junk"], other=jb["other"], seed_override=jb["seed_override"])
+        try:
+            p = subprocess.run([sys.executable, os.path.join(HERE, "twin_c13.py")], input=json.dumps(spec), capture_output=True,
+                               text=True, timeout=300, env=env)
+            if p.returncode != 0:
+                twins.append(dict(job={k: v for k, v in jb.items() if k != "other"}, error=p.stderr[-800:]))
+                continue
+            twins.append(dict(job={k: (v if k != "other" else bool(v)) for k, v in jb.items()}, lines=json.loads(p.stdout)["lines"]))
+        except Exception as e:  # noqa
+            twins.append(dict(job={k: v for k, v in jb.items() if k != "other"}, error=repr(e)))
+    return dict(mine=mine, twins=twins, deterministic=deterministic)
 
 
 def shift_twin(run, scen):
